@@ -6,6 +6,7 @@ use crate::engine::{Args, Ctx, ReplayDoc};
 
 pub mod c13;
 pub mod c13b;
+pub mod c20;
 pub mod c11;
 pub mod envelope_props;
 
@@ -16,6 +17,7 @@ pub fn run(args: &Args) -> ! {
         "C09" => envelope_props::run_c09(args),
         "C10" => envelope_props::run_c10(args),
         "C11" => c11::run(args),
+        "C20" => c20::run(args),
         p => {
             eprintln!("INFRA: unknown property '{}'", p);
             std::process::exit(2)
@@ -42,6 +44,7 @@ pub fn replay_one(ctx: &Ctx, doc: &ReplayDoc) {
         "C13" => c13::replay_one(ctx, doc),
         "C08" | "C09" | "C10" => envelope_props::replay_one(ctx, doc),
         "C11" => c11::replay_one(ctx, doc),
+        "C20" => c20::replay_one(ctx, doc),
         p => ctx.infra_error(format!("unknown property '{}' in replay file", p)),
     }
 }
